@@ -10,13 +10,34 @@ use quil_rs::expression::Expression;
 use quil_rs::instruction::*;
 use quil_rs::Program;
 
+thread_local! {
+    /// the distinct placeholders of the current case, numbered by first occurrence (a placeholder's identity
+    /// is its `Arc` address; `QubitPlaceholder: Eq` compares exactly that)
+    static PLACEHOLDERS: std::cell::RefCell<Vec<QubitPlaceholder>> = Default::default();
+}
+
 fn q_sexp(q: &Qubit) -> Sexp {
     match q {
         Qubit::Fixed(n) => nat(*n),
         Qubit::Variable(s) => tagged("v", vec![st(s.clone())]),
-        Qubit::Placeholder(_) => panic!("placeholders are not generated"),
+        Qubit::Placeholder(p) => PLACEHOLDERS.with(|r| {
+            let mut r = r.borrow_mut();
+            let k = match r.iter().position(|x| x == p) {
+                Some(k) => k,
+                None => {
+                    r.push(p.clone());
+                    r.len() - 1
+                }
+            };
+            tagged("p", vec![nat(k as u64)])
+        }),
     }
 }
+
+/// A handler that overrides nothing: every method is the trait's default, which must delegate to
+/// `DefaultHandler`.
+struct PlainHandler;
+impl InstructionHandler for PlainHandler {}
 
 fn f_sexp(f: &FrameIdentifier) -> Sexp {
     let mut v = vec![st(f.name.clone())];
@@ -62,6 +83,7 @@ fn proj(i: &Instruction) -> Sexp {
             "defcalm",
             vec![q_sexp(&c.identifier.qubit), list(c.instructions.iter().map(proj).collect())],
         ),
+        Instruction::FrameDefinition(d) => tagged("defframe", vec![f_sexp(&d.identifier)]),
         other => tagged("other", vec![atom(instrgen::variant_name(other))]),
     }
 }
@@ -81,8 +103,38 @@ fn sorted_frames<'a>(it: impl Iterator<Item = &'a FrameIdentifier>) -> Sexp {
     list(v.into_iter().map(|x| x.1).collect())
 }
 
+fn matched_sexp(m: Option<quil_rs::program::MatchedFrames>) -> Sexp {
+    match m {
+        None => atom("none"),
+        Some(m) => tagged(
+            "m",
+            vec![sorted_frames(m.used.iter().copied()), sorted_frames(m.blocked.iter().copied())],
+        ),
+    }
+}
+
+/// Observe one query on an already built program whose CONTENT is `content` (projected instructions,
+/// DEFFRAMEs included): the default handler, and the trait's default method through a handler that overrides
+/// nothing — they must coincide.
+fn observe(ctx: &mut Ctx, program: &Program, content: Vec<Sexp>, query: &Instruction) {
+    let input = tagged(
+        "mf",
+        vec![sorted_frames(program.frames.get_keys().into_iter()), list(content), proj(query)],
+    );
+    ctx.case(input, || {
+        let a = matched_sexp(DefaultHandler.matching_frames(program, query));
+        let b = matched_sexp(PlainHandler.matching_frames(program, query));
+        if a == b {
+            a
+        } else {
+            tagged("handler-mismatch", vec![a, b])
+        }
+    });
+}
+
 /// One case: `frames` are added as DEFFRAMEs first, then `added` (which may itself contain DEFFRAMEs).
 fn run_case(ctx: &mut Ctx, frames: &[FrameIdentifier], added: &[Instruction], query: &Instruction) {
+    PLACEHOLDERS.with(|r| r.borrow_mut().clear());
     let mut program = Program::new();
     for f in frames {
         program.add_instruction(deffame(f));
@@ -92,17 +144,91 @@ fn run_case(ctx: &mut Ctx, frames: &[FrameIdentifier], added: &[Instruction], qu
     }
     let mut all_added: Vec<Sexp> = frames.iter().map(|f| proj(&deffame(f))).collect();
     all_added.extend(added.iter().map(proj));
-    let input = tagged(
-        "mf",
-        vec![sorted_frames(program.frames.get_keys().into_iter()), list(all_added), proj(query)],
-    );
-    ctx.case(input, || match DefaultHandler.matching_frames(&program, query) {
-        None => atom("none"),
-        Some(m) => tagged(
-            "m",
-            vec![sorted_frames(m.used.iter().copied()), sorted_frames(m.blocked.iter().copied())],
-        ),
+    observe(ctx, &program, all_added, query);
+}
+
+/// The same content built through every other public route; each resulting program is queried with every
+/// instruction of `queries` (content = what `to_instructions` lists, plus API-inserted frames).
+fn run_routes(ctx: &mut Ctx, frames: &[FrameIdentifier], added: &[Instruction], queries: &[Instruction]) {
+    PLACEHOLDERS.with(|r| r.borrow_mut().clear());
+    let mut all: Vec<Instruction> = frames.iter().map(deffame).collect();
+    all.extend(added.iter().cloned());
+    let content = |p: &Program| -> Vec<Sexp> { p.to_instructions().iter().map(proj).collect() };
+    let mut programs: Vec<(&str, Program)> = vec![];
+    programs.push(("from_instructions", Program::from_instructions(all.clone())));
+    let mut p = Program::new();
+    p.add_instructions(all.clone());
+    programs.push(("add_instructions", p));
+    // frames through the FrameSet API only (no DEFFRAME instruction ever added)
+    let mut p = Program::new();
+    for f in frames {
+        p.frames.insert(f.clone(), FrameAttributes::new());
+    }
+    p.add_instructions(added.to_vec());
+    programs.push(("frames.insert", p));
+    // `+` and `+=` of two halves, each half defining some of the frames (so that `FrameSet::merge` really
+    // has to merge) and carrying some of the instructions
+    let half = added.len() / 2;
+    let fhalf = frames.len() / 2;
+    let mut left_instrs: Vec<Instruction> = frames[..fhalf].iter().map(deffame).collect();
+    left_instrs.extend(added[..half].iter().cloned());
+    let left = Program::from_instructions(left_instrs);
+    let mut right_instrs: Vec<Instruction> = frames[fhalf..].iter().map(deffame).collect();
+    right_instrs.extend(added[half..].iter().cloned());
+    let right = Program::from_instructions(right_instrs);
+    programs.push(("add", left.clone() + right.clone()));
+    let mut p = left.clone();
+    p += right;
+    programs.push(("add_assign", p));
+    programs.push(("clone", programs[0].1.clone()));
+    // printed and parsed back (only when the text round-trips to the same instruction list)
+    if let Ok(text) = quil_rs::quil::Quil::to_quil(&programs[0].1) {
+        if let Ok(parsed) = <Program as std::str::FromStr>::from_str(&text) {
+            if parsed.to_instructions() == programs[0].1.to_instructions() {
+                programs.push(("from_str", parsed));
+            }
+        }
+    }
+    // calibration expansion keeps the definitions and rebuilds the used qubits from the result
+    if let Ok(expanded) = programs[0].1.expand_calibrations() {
+        programs.push(("expand_calibrations", expanded));
+    }
+    // The content sent to the model is the GENERATOR's (`all`), so that a route losing or inventing a frame
+    // or an instruction shows up in the key cross-check / the used qubits; only calibration expansion
+    // legitimately changes the content, there it is read back from the result.
+    let generator_content: Vec<Sexp> = all.iter().map(proj).collect();
+    for (route, program) in &programs {
+        let c = if *route == "expand_calibrations" { content(program) } else { generator_content.clone() };
+        for q in queries {
+            observe(ctx, program, c.clone(), q);
+        }
+    }
+    // one object, grown step by step: the used-qubit cache is observed after every addition
+    let mut p = Program::new();
+    let mut c: Vec<Sexp> = vec![];
+    for i in &all {
+        p.add_instruction(i.clone());
+        c.push(proj(i));
+        for q in queries {
+            observe(ctx, &p, c.clone(), q);
+        }
+    }
+    // program-level sibling: `simplify` keeps exactly the frames some body instruction uses (programs
+    // without calibrations, where expansion is the identity)
+    let no_cal = all.iter().all(|i| {
+        !matches!(i, Instruction::CalibrationDefinition(_) | Instruction::MeasureCalibrationDefinition(_))
     });
+    if no_cal {
+        let program = &programs[0].1;
+        let input = tagged("simp", vec![sorted_frames(program.frames.get_keys().into_iter()), list(content(program))]);
+        ctx.case(input, || match program.simplify(&DefaultHandler) {
+            Ok(s) => tagged("frames", match sorted_frames(s.frames.get_keys().into_iter()) {
+                Sexp::List(v) => v,
+                _ => unreachable!(),
+            }),
+            Err(e) => tagged("err", vec![st(format!("{e} / {e:?}"))]),
+        });
+    }
 }
 
 fn one() -> Expression {
@@ -244,6 +370,31 @@ fn bodies_for_reset(qs: &[Qubit]) -> Vec<Vec<Instruction>> {
             identifier: MeasureCalibrationIdentifier { name: None, qubit: q1.clone(), target: None },
             instructions: vec![xgate(q0)],
         })]);
+        // used qubits coming ONLY from a calibration body (header on a variable qubit), two levels deep
+        out.push(vec![Instruction::CalibrationDefinition(CalibrationDefinition {
+            identifier: CalibrationIdentifier {
+                modifiers: vec![],
+                name: "X".to_string(),
+                parameters: vec![],
+                qubits: vec![Qubit::Variable("q".to_string())],
+            },
+            instructions: vec![
+                Instruction::Fence(Fence { qubits: vec![q1.clone()] }),
+                Instruction::MeasureCalibrationDefinition(MeasureCalibrationDefinition {
+                    identifier: MeasureCalibrationIdentifier { name: None, qubit: q0.clone(), target: None },
+                    instructions: vec![],
+                }),
+            ],
+        })]);
+        // a circuit definition's body does NOT count
+        out.push(vec![Instruction::CircuitDefinition(CircuitDefinition {
+            name: "c".to_string(),
+            parameters: vec![],
+            qubit_variables: vec![],
+            instructions: vec![xgate(q0), xgate(q1)],
+        })]);
+        // nor does a frame definition on these qubits
+        out.push(vec![deffame(&fr)]);
     }
     out
 }
@@ -274,10 +425,16 @@ fn exhaustive(ctx: &mut Ctx, qs: &[Qubit], names: &[&str], max_frames: usize, wi
     let instrs = frame_instructions(qs, names, with_swap);
     let bodies = bodies_for_reset(qs);
     let reset_all = Instruction::Reset(Reset { qubit: None });
+    let mut rr = 0usize;
     for s in subsets_up_to(u.len(), max_frames).into_iter().step_by(stride) {
         let frames: Vec<FrameIdentifier> = s.iter().map(|&j| u[j].clone()).collect();
         for i in &instrs {
-            run_case(ctx, &frames, &[], i);
+            // the program's used qubits range over every subset of the alphabet (round robin; the first
+            // 2^|qs| bodies are the X-gate bodies, body 0 is empty), so that no instruction kind is only ever
+            // seen against "no qubit in use"
+            let b = &bodies[rr % (1usize << qs.len())];
+            rr += 1;
+            run_case(ctx, &frames, b, i);
         }
         for b in &bodies {
             run_case(ctx, &frames, b, &reset_all);
@@ -352,11 +509,128 @@ fn run(ctx: &mut Ctx) {
         exhaustive(ctx, &q3, &["a", "b", "c"], 3, false, 4);
     }
 
+    // ---- 2b. special shapes: boundary qubit indices, names differing only in case / empty, repeated names
+    // and qubits, placeholders (identity = Arc address), a frame set with more than 32 entries
+    {
+        let f = |n: &str, qs: Vec<Qubit>| FrameIdentifier { name: n.to_string(), qubits: qs };
+        let big = fixed(u64::MAX);
+        let big2 = fixed(1u64 << 63);
+        let p1 = Qubit::Placeholder(QubitPlaceholder::default());
+        let p2 = Qubit::Placeholder(QubitPlaceholder::default());
+        let mut frames = vec![
+            f("a", vec![fixed(0)]),
+            f("A", vec![fixed(0)]),
+            f("", vec![fixed(0)]),
+            f("a", vec![big.clone()]),
+            f("a", vec![big2.clone(), big.clone()]),
+            f("a", vec![p1.clone()]),
+            f("b", vec![p1.clone(), p2.clone()]),
+            f("b", vec![p2.clone(), p1.clone()]),
+            f("c", vec![p2.clone(), p2.clone()]),
+            f("a", vec![Qubit::Variable("q".to_string())]),
+            f("a", vec![Qubit::Variable("Q".to_string())]),
+        ];
+        let pulse = |blocking, fr: &FrameIdentifier| Instruction::Pulse(Pulse { blocking, frame: fr.clone(), waveform: wf() });
+        let delay = |ns: &[&str], qs: Vec<Qubit>| {
+            Instruction::Delay(Delay { duration: one(), frame_names: ns.iter().map(|s| s.to_string()).collect(), qubits: qs })
+        };
+        let mut queries = vec![
+            Instruction::Reset(Reset { qubit: None }),
+            Instruction::Fence(Fence { qubits: vec![] }),
+            Instruction::Fence(Fence { qubits: vec![p1.clone()] }),
+            Instruction::Fence(Fence { qubits: vec![big.clone(), big.clone()] }),
+            Instruction::Fence(Fence { qubits: vec![Qubit::Placeholder(QubitPlaceholder::default())] }),
+            Instruction::Reset(Reset { qubit: Some(p2.clone()) }),
+            Instruction::Reset(Reset { qubit: Some(big.clone()) }),
+            delay(&[], vec![p1.clone(), p2.clone()]),
+            delay(&["b", "b"], vec![p2.clone(), p1.clone(), p1.clone()]),
+            delay(&["A"], vec![fixed(0)]),
+            delay(&[""], vec![fixed(0), fixed(0)]),
+            delay(&["a", ""], vec![fixed(0)]),
+            delay(&[], vec![big.clone(), big2.clone()]),
+            delay(&[], vec![Qubit::Variable("Q".to_string())]),
+        ];
+        for fr in &frames {
+            queries.push(pulse(true, fr));
+            queries.push(Instruction::SwapPhases(SwapPhases { frame_1: fr.clone(), frame_2: frames[0].clone() }));
+        }
+        let bodies: Vec<Vec<Instruction>> = vec![
+            vec![],
+            vec![xgate(&p1)],
+            vec![xgate(&p1), xgate(&p2)],
+            vec![xgate(&big), xgate(&big2)],
+            vec![xgate(&fixed(0)), xgate(&Qubit::Variable("q".to_string()))],
+        ];
+        for b in &bodies {
+            for q in &queries {
+                run_case(ctx, &frames, b, q);
+            }
+        }
+        // 40 more frames: the result sets exceed 32 entries
+        for k in 0..40u64 {
+            frames.push(f(if k % 2 == 0 { "a" } else { "w" }, vec![fixed(k % 5), fixed(100 + k)]));
+        }
+        for q in &queries {
+            run_case(ctx, &frames, &bodies[4], q);
+        }
+        let wide = Instruction::Fence(Fence { qubits: (0..40).map(|k| fixed(100 + k)).collect() });
+        run_case(ctx, &frames, &bodies[3], &wide);
+    }
+
+    // ---- 2c. every other public route to the same program content (from_instructions, add_instructions,
+    // FrameSet::insert, `+`, `+=`, clone, print + parse, expand_calibrations), one object grown step by step
+    // with the used-qubit cache observed after every addition, and the program-level sibling `simplify`
+    {
+        let f = |n: &str, qs: &[u64]| FrameIdentifier { name: n.to_string(), qubits: qs.iter().map(|&q| fixed(q)).collect() };
+        let frame_sets = vec![
+            vec![f("a", &[0]), f("b", &[0, 1]), f("a", &[1]), f("c", &[2])],
+            vec![f("a", &[0, 1]), f("a", &[1, 0]), f("b", &[2])],
+        ];
+        let queries = vec![
+            Instruction::Reset(Reset { qubit: None }),
+            Instruction::Fence(Fence { qubits: vec![fixed(0), fixed(1)] }),
+            Instruction::Fence(Fence { qubits: vec![fixed(2)] }),
+            Instruction::Delay(Delay { duration: one(), frame_names: vec![], qubits: vec![fixed(1), fixed(0)] }),
+            Instruction::Reset(Reset { qubit: Some(fixed(0)) }),
+            Instruction::Pulse(Pulse { blocking: true, frame: f("a", &[0]), waveform: wf() }),
+        ];
+        for frames in &frame_sets {
+            for b in bodies_for_reset(&q3) {
+                run_routes(ctx, frames, &b, &queries);
+            }
+        }
+        let mut rng = ctx.rng(2600);
+        let mut alpha = Alpha::small();
+        alpha.expr_depth = 1;
+        let n = if ctx.quick() { 120 } else { 4000 };
+        for _ in 0..n {
+            let frames: Vec<FrameIdentifier> = (0..rng.below(5)).map(|_| instrgen::frame(&mut rng, &alpha)).collect();
+            let mut added: Vec<Instruction> = (0..rng.below(5)).map(|_| instrgen::any_instruction(&mut rng, &alpha, 1)).collect();
+            // instructions that actually play on defined frames (so that `simplify` has something to keep)
+            for _ in 0..rng.below(3) {
+                if let Some(fr) = (!frames.is_empty()).then(|| rng.pick(&frames).clone()) {
+                    added.push(match rng.below(4) {
+                        0 => Instruction::Pulse(Pulse { blocking: rng.chance(1, 2), frame: fr, waveform: wf() }),
+                        1 => Instruction::SetPhase(SetPhase { frame: fr, phase: one() }),
+                        2 => Instruction::Delay(Delay { duration: one(), frame_names: vec![], qubits: fr.qubits.clone() }),
+                        _ => Instruction::Fence(Fence { qubits: fr.qubits[..1].to_vec() }),
+                    });
+                }
+            }
+            let mut qs = queries[..3].to_vec();
+            qs.push(instrgen::any_instruction(&mut rng, &alpha, 0));
+            run_routes(ctx, &frames, &added, &qs);
+        }
+    }
+
     // ---- 3. seeded random: larger frame sets, variable qubits, every Instruction variant as query
     // and as program content
     let mut rng = ctx.rng(26);
     let mut alpha = Alpha::small();
     alpha.qubits.push(Qubit::Variable("q".to_string()));
+    alpha.qubits.push(Qubit::Placeholder(QubitPlaceholder::default()));
+    alpha.qubits.push(Qubit::Placeholder(QubitPlaceholder::default()));
+    alpha.frame_names.push("A".to_string());
     alpha.expr_depth = 1;
     let n_random = if ctx.quick() { 12_000 } else { 400_000 };
     for k in 0..n_random {
